@@ -221,7 +221,7 @@ var formats = []string{"zng", "zson", "zjson", "json", "csv"}
 
 // Suffixes appended to generated pool and branch names.  Single quotes are documented as illegal in names
 // (lakeparse.ParseCommitish) and the empty branch name is not generated.
-var nameSuffixes = []string{"", "", " sp", "é", "/sl", "@at", ":co", ".dot", "\"dq", "%2Bpc", "+plus", "", "x"}
+var nameSuffixes = []string{"", "", " sp", "+plus", "/sl", "@at", ":co", ".dot", "\"dq", "%2Bpc", "é", "", "x"}
 
 func genName(t *rapid.T) int {
 	return rapid.IntRange(0, len(nameSuffixes)-1).Draw(t, "name")
@@ -564,13 +564,11 @@ func (r *runner) inspectBranch(si int, engine storage.Engine, pool *lake.Pool, t
 	}
 	byCommit := map[ksuid.KSUID]*centry{}
 	addedBy := map[ksuid.KSUID][]ksuid.KSUID{} // object id -> commits with an Add action for it
-	var orderIDs []ksuid.KSUID
 	get := func(id ksuid.KSUID) *centry {
 		e := byCommit[id]
 		if e == nil {
 			e = &centry{id: id}
 			byCommit[id] = e
-			orderIDs = append(orderIDs, id)
 		}
 		return e
 	}
@@ -942,13 +940,6 @@ func encode(vals []zed.Value, f string) ([]byte, error) {
 
 type onlyReader struct{ io.Reader }
 
-func errClass(err error) string {
-	if err == nil {
-		return "ok"
-	}
-	return "error"
-}
-
 func (r *runner) subst(q string, p *mpool, branch string, p2 *mpool, missing bool) string {
 	pn := "nosuchpool"
 	if p != nil && !missing {
@@ -971,6 +962,7 @@ type rawResult struct {
 	body      []byte
 	inBand    string // QueryError text found in the body ("" if none)
 	statusErr string // error reported by /query/status/{id}
+	statusOK  bool   // the status endpoint answered (its entry exists for only ~10 s after the query ended)
 	reqID     string
 }
 
@@ -1012,6 +1004,7 @@ func (r *runner) rawQuery(head *lakeparse.Commitish, text string, raw Raw) rawRe
 		var qe api.QueryError
 		if json.Unmarshal(bytes.TrimSpace(b), &qe) == nil {
 			res.statusErr = qe.Error
+			res.statusOK = true
 		}
 	}
 	return res
@@ -1247,6 +1240,11 @@ func (r *runner) compareRaw(step int, what string, head *lakeparse.Commitish, te
 				return fail(sigNotInBand, "step %d (%s): %q (%s): direct access fails with %q; the service answered 200 with the well-formed short body %q and no in-band error (only GET /query/status/%s reports %q)",
 					step, what, text, tag, directErr, trunc(res.body), res.reqID, res.statusErr)
 			}
+			return nil
+		}
+		if !res.statusOK {
+			// the status entry is kept for only ~10 s after the query ended; on a stalled machine it may be gone
+			r.o.Skip = "query status endpoint did not answer (entry expired?)"
 			return nil
 		}
 		return fail(sigDroppedFully, "step %d (%s): %q (%s): direct access fails with %q; the service answered 200 with body %q and neither the body nor /query/status/%s reports an error",
@@ -2179,11 +2177,11 @@ func (r *runner) classifyReaderPrefix(step int, op Op, before, after [2]*lakeSta
 
 var prop = &vt.Prop[Case]{
 	Name: "TestServiceEquivalence",
-	Rule: "case = compiler.Parallelism in {default,1,2} x zbuf.PullerBatchValues in {1,2,3,100} x 2..4 value batches x history of 4..12 (thorough 24) ops over up to 3 pools x 4 branches: create/rename/drop pool (incl. duplicate names), create/drop branch (at tip or older commit), " +
-		"load (through lakeapi.Interface, or raw POST bodies with content type zng|zson|zjson|json|csv|vng|auto-detect; optional commit meta; malformed tail; reader failing mid-stream; invalid meta), delete (ids, stale id), delete-where, compact(+vectors), vector add/del, vacuum(dry), merge, revert, " +
+	Rule: "case = compiler.Parallelism in {1 (mostly), 2, default} x zbuf.PullerBatchValues in {1,2,3,100} x 2..4 value batches (uniform {k,s,v} records or mixed shapes: null/missing/string keys, floats, nested, ip/time/duration, unions, errors, named types, non-records; batch b draws keys from [100b,100b+20]) x history of 5..12 (thorough 24) ops over up to 3 pools x 4 branches (names with spaces, '+', '/', '@', ':', '.', '\"', '%2B', non-ASCII; the empty pool name): create/rename/drop pool (incl. duplicate names; key k|s|this|n.a, asc/desc, threshold 40|100|default, seek stride 1|16|default), create/drop branch (at tip or older commit), " +
+		"load (through lakeapi.Interface, or raw POST bodies with content type zng|zson|zjson|json|csv|vng|auto-detect; optional commit meta; malformed tail; reader failing mid-stream; invalid meta), delete (ids, stale id), delete-where, compact(+vectors), vector add/del, vacuum(dry), merge, revert, CommitObject, PoolID, " +
 		"queries (data programs, meta-queries :pools :branches :objects :partitions :log :rawlog :vectors without ids/timestamps, HEAD-relative programs, non-compiling programs, missing pools) each run through both lakeapi handles and through 0..3 raw POST /query variants (format zng|zson|zjson|json|csv x ctrl T|F), " +
 		"late-error probes (one object's data file overwritten with garbage on both sides during the query; responses whose formatter fails on a later value). Every op is applied to lakeapi.FromRoot(rootA) and to lakeapi.NewRemoteLake(client to httptest server over rootB) on the real file engine. " +
-		"Oracle after each step: same error presence; both directories re-opened cold and compared (pools, configs, branches, commit chains with author/message/meta/action kinds, objects by count/min/max/size/vector flag/values); query values equal (sequence if ordered, else multiset), raw response bytes equal to the same formatter over the direct result after removing control messages; an error direct access reports must reach the remote client (remote puller error; QueryError control message when control messages are enabled; otherwise at least GET /query/status/{id}). " +
+		"Oracle after each step: same error presence; after every mutation both directories are re-opened cold and compared (pools, configs, branches, commit chains with author/message/meta/action kinds, branch value multisets, objects by count/min/max/adding commit/vector flag/value multiset; a pure re-partitioning of equal contents ends the history, see label state:layout-differs); query values equal (sequence if the program orders its output, up to ties of the repo's sort comparator; else multiset), raw response bytes equal to the same formatter over the direct result after removing control messages (json: the array writer the service documents); an error direct access reports must reach the remote client (remote puller error; QueryError control message when control messages are enabled; otherwise at least GET /query/status/{id}). Under parallelism != 1 a query mismatch must be reproducible (6 attempts) to count. " +
 		"Non-trivial = >=1 successful mutation through the service and (>=1 query whose direct result spans >=2 batches or >=1 late error observed); evaluations count steps.",
 	Gen: genCase,
 	Run: runCase,
@@ -2254,7 +2252,7 @@ func literalCases() map[string]struct {
 		Op{Kind: "query", Query: "from {P}@{B} | sort this", Ordered: true, Branch: 1, Raws: all[:4]}, Op{Kind: "renamepool", Name: 8}, Op{Kind: "poolid"},
 		Op{Kind: "query", Query: "from :pools | cut name", Raws: all[2:4]})
 	add("known-C19-path-param-plus-sign", sigPlus, "known", 1,
-		Op{Kind: "createpool", Key: "k"}, Op{Kind: "branch", Name: 10}, Op{Kind: "load", Via: "api", Branch: 1})
+		Op{Kind: "createpool", Key: "k"}, Op{Kind: "branch", Name: 3}, Op{Kind: "load", Via: "api", Branch: 1})
 	add("known-C19-empty-pool-name", sigEmptyPool, "known", 1,
 		Op{Kind: "createpool", Key: "k"}, Op{Kind: "createpool", Key: "k", Name: -1}, Op{Kind: "query", Query: "from :pools | cut name", Raws: all[2:4]})
 	add("regress-history-merge-revert-vacuum", "", "", 0,
